@@ -29,7 +29,7 @@ def mkctx():
 def branch(fn, surface_type):
     """the `then` block of  else if (x[i]->type == SURFACE_CB && use.Get_surface_ptr()->Get_type() == cxxSurface::<surface_type>)"""
     import re
-    src = open("/repo/" + MODEL, "rb").read()
+    src = open(core.REPO + "/" + MODEL, "rb").read()
     for x in A.walk(fn):
         if x.get("kind") != "IfStmt":
             continue
@@ -114,7 +114,7 @@ READ = "src/phreeqcpp/read.cpp"
 
 def _src_if(fn, rel, pred):
     import re
-    src = open("/repo/" + rel, "rb").read()
+    src = open(core.REPO + "/" + rel, "rb").read()
     for x in A.walk(fn):
         if x.get("kind") != "IfStmt":
             continue
@@ -248,7 +248,7 @@ def unit_cd_music_distribution(twin=False):
     1-f to plane 1; plane 2 takes dz2; the reaction record gets the same three values."""
     fn0 = A.find_function(READ, "Phreeqc::read_surface_species")
     r = U.new_unit("C20.read_surface_species.cd_music_charge_distribution", READ, "Phreeqc::read_surface_species", fn0)
-    src = open("/repo/" + READ, "rb").read()
+    src = open(core.REPO + "/" + READ, "rb").read()
     stmts = []
     for x in A.walk(fn0):
         if x.get("kind") == "BinaryOperator" and x.get("opcode") == "=":
